@@ -97,6 +97,9 @@ def work_corpus(ids, with_run, excl):
     cases = {c["id"]: c for c in c24.all_sources()}
     for i in ids:
         c = cases[i]
+        if not c["script"].strip():
+            part.excluded["empty_script"] += 1   # no transformation to carry: outside the property's domain (pysdmx rejects an empty TransformationScheme)
+            continue
         deep = None
         if with_run and c.get("structs") and not c.get("nondet"):
             if "viral_definition_not_carried" in excl and VIRAL.search(c["script"]):
